@@ -30,4 +30,29 @@ PROPS = {
             "Frame fields are crate-private: field values are compared through ==, id, opcode() and re-encoding",
         ],
     },
+    "C18": {
+        "level": "exploration",
+        "jobs": {
+            "quick": [job("pure", "mux", "verif", "c18", 8)],
+            "thorough": [job("pure", "mux", "verif", "c18", 16)],
+        },
+        "assumptions": COMMON_ASSUMPTIONS + [
+            "the reference grammar (harness/mux/src/c18.rs) is a correct reading of RFC 1928, SOCKS4 and the SOCKS4a convention (DSTIP 0.0.0.x, x != 0)",
+            "SOCKS4 requests with DSTIP 0.0.0.0 or 0.a.b.c are outside the convention and carry no verdict; the reserved bytes of a UDP request header are not required to be checked",
+            "the live SOCKS path (listener, replies on a real socket, UDP association) is covered by C01, not here",
+        ],
+    },
+    "C20": {
+        "level": "exploration",
+        "jobs": {
+            "quick": [job("pure", "mux", "verif", "c20", 8)],
+            "thorough": [job("pure", "mux", "verif", "c20", 16),
+                         job("miri", "mux", "miri", "c20", 8, extra=["--miri", "1"], timeout=3000)],
+        },
+        "assumptions": COMMON_ASSUMPTIONS + [
+            "model = Vec<u8> plus the list of chunk lengths; index/length arguments are resolved on the model",
+            "after a caught panic on an out-of-range argument the chain is discarded, not inspected",
+            "io::Read on CowBytes is not an accessor the property constrains: only agreement between the borrowed and owned variant is checked",
+        ],
+    },
 }
